@@ -55,6 +55,7 @@ Definition s_content_length : bytes := [67;111;110;116;101;110;116;45;76;101;110
 Definition s_user_agent : bytes := [85;115;101;114;45;65;103;101;110;116].
 Definition s_api_key : bytes := [88;45;65;112;105;45;75;101;121].
 Definition s_trailers_tok : bytes := [116;114;97;105;108;101;114;115].
+Definition s_xrid : bytes := [88;45;82;101;113;117;101;115;116;45;73;100].   (* X-Request-Id *)
 
 Definition hop_headers : list bytes :=
   [s_connection; s_proxy_connection; s_keep_alive; s_proxy_authenticate; s_proxy_authorization; s_te; s_trailer;
@@ -107,7 +108,8 @@ Inductive wplug :=
 | WHeaders (set reqset : hdrs)
 | WAuth (key : bytes)
 | WSizeLimit (maxreq maxresp : Z)
-| WGzip.
+| WGzip
+| WReqId.                                  (* the tutorial plugin "request-id" (example_request_id.go) *)
 
 Record wcfg := mkWCfg {
   c_rid : bool; c_rid_hdr : bytes;         (* request ID: enabled, canonical header name after defaulting *)
@@ -137,6 +139,7 @@ Record rview := mkRView {
 (* a generated identifier is not predictable: the model marks it, the comparison accepts any well-formed fresh ID *)
 Definition GEN_REQ : bytes := [0; 1].
 Definition GEN_TRACE : bytes := [0; 2].
+Definition GEN_PLUG : bytes := [0; 3].     (* generated by the request-id plugin: 32 hex digits *)
 
 Definition id_value (supplied : option bytes) (gen : bytes) : bytes :=
   match supplied with
@@ -165,6 +168,10 @@ Fixpoint chain_request (chain : list wplug) (q : wreq) (h pre : hdrs) : (option 
       else (Some 401, h, pre)
   | WSizeLimit maxreq _ :: t =>
       if Z.eqb (q_framing q) 1 && (maxreq <? q_blen q) then (Some 413, h, pre) else chain_request t q h pre
+  | WReqId :: t =>
+      (* keeps the ID the request already carries (the client's, or the one the ID middleware chose); generates otherwise *)
+      let v := match hget s_xrid h with Some v => if bytes_eqb v [] then GEN_PLUG else v | None => GEN_PLUG end in
+      chain_request t q (hset s_xrid v h) (hset s_xrid v pre)
   end.
 
 (* ---- ReverseProxy (NewSingleHostReverseProxy, Director mode) on the request ---- *)
